@@ -45,7 +45,7 @@ VARIANTS = {
 # driver name -> (variant, harness sources relative to hwsim/, extra link flags, sources that get SUT instrumentation)
 DRIVERS = {
     "bitmap": dict(variant="asan", src=["core/core.cc", "bitmap/machine_bitmap.cc"], link=[]),
-    "topo": dict(variant="asan", src=["core/core.cc", "topo/dump.cc", "topo/wf.cc", "topo/src.cc", "topo/ops_core.cc", "topo/ops_repl.cc", "topo/ops_aux.cc", "topo/ops_diff.cc", "topo/ops_shm.cc",
+    "topo": dict(variant="asan", src=["core/core.cc", "topo/dump.cc", "topo/wf.cc", "topo/src.cc", "topo/ops_core.cc", "topo/ops_repl.cc", "topo/ops_aux.cc", "topo/ops_diff.cc", "topo/ops_shm.cc", "topo/battery.cc",
                                       "topo/machine_topo.cc"], link=[]),
     # C10: hwloc's Linux binding hooks against the kernel model (bind/kmodel.cc); the real kernel is never asked
     "bind": dict(variant="asan", src=["core/core.cc", "bind/kmodel.cc", "bind/machine_bind.cc"],
